@@ -6,10 +6,11 @@ CONSTANTS
   MaxCtx = 255
   MaxBi = 255
   MaxVars = 2
+  Progs = {1, 2}
   GrowSteps = 1
   Texts <- NoTexts
   Outcomes <- OutcomesMC
   Obs <- ObsNone
 INVARIANTS IndexBelowCapacity BuiltinSentinel AfterFreeNoResidue FileStackRestored
-CONSTRAINT Bounded
+CONSTRAINT Bounded EnvQuiet
 CHECK_DEADLOCK FALSE
